@@ -12,6 +12,7 @@ import GIV.Lemmas.TxtarQuote
 import GIV.Lemmas.TxtarCRLF
 import GIV.Lemmas.TxtarIdxLoop
 import GIV.Lemmas.TxtarGoLoop
+import GIV.Lemmas.XTxtarGo
 
 namespace GIV.C03
 open GIV GIV.Txtar
@@ -224,5 +225,91 @@ theorem go_format_Parse_wf : ∀ a, WellFormed a → GIV.Go.Txtar.Parse (format 
   intro a h
   rw [go_Parse_agrees, format_parse_wf a h]
   rfl
+
+/-! ### the reference itself, translated from the library source
+
+The property compares /repo's `Parse` with "the reference definition of the format
+(golang.org/x/tools/txtar)" and round-trips through x/tools' `Format`.  `refParse` and `format` above
+are the model's transcriptions of those library functions.  `GIV.Gen.XTxtarGo` is *generated* on every
+check run from `txtar/archive.go` of the x/tools version /repo's go.mod requires (the module-cache copy
+the harness and /repo are built against): `GIV.Go.XTxtar.Parse` / `findFileMarker` / `isMarker` /
+`fixNL` are the REFERENCE parser (no carriage-return handling), `GIV.Go.XTxtar.Format` is the
+`bytes.Buffer` / `fmt.Fprintf(&buf, "-- %s --\n", f.Name)` loop.  `GIV/Lemmas/XTxtarGo.lean` proves them
+equal to the model's reference definitions for all inputs, so the two clauses of the property can be
+stated with BOTH sides translated from source. -/
+
+/-- The translated x/tools `Parse` is the model's reference parser `refParse` (in particular it never
+panics and its loop budgets suffice), and the translated x/tools `Format` is the model's `format`
+(no index, slice or `make` in it ever fails) — for every byte string and every archive. -/
+theorem go_reference_agrees :
+    (∀ d, GIV.Go.XTxtar.Parse d = some (XTxtarGo.toGoArchive (refParse d))) ∧
+    (∀ a, GIV.Go.XTxtar.Format (XTxtarGo.toGoArchive a) = some (format a)) ∧
+    (∀ g, GIV.Go.XTxtar.Format g = some (format (XTxtarGo.ofGoArchive g))) :=
+  have : FLit := ⟨rfl, rfl⟩; have : FNLM := ⟨rfl⟩
+  ⟨XTxtarGo.Parse_eq_ref, XTxtarGo.Format_toGo, XTxtarGo.Format_eq⟩
+
+example : GIV.Go.XTxtar.Parse (lit "x\n-- a --\ny") = some ⟨lit "x\n", [⟨lit "a", lit "y\n"⟩]⟩ := by decide +kernel
+example : GIV.Go.XTxtar.Format ⟨lit "c", [⟨lit "a b", lit "x"⟩, ⟨lit "b", []⟩]⟩ =
+    some (lit "c\n-- a b --\nx\n-- b --\n") := by decide +kernel
+
+open GIV.TxtarGo in
+/-- … and so are the reference's `findFileMarker`, `isMarker` and `fixNL`, against the index form of
+the reference (`refIsMarkerIdx`, the generic `findFileMarkerG`; `ref_index_form_agrees`). -/
+theorem go_reference_helpers_agree : ∀ d,
+    GIV.Go.XTxtar.Parse d = (refParseIdx d).map XTxtarGo.toGoArchive ∧
+    GIV.Go.XTxtar.findFileMarker d = (findFileMarkerG refIsMarkerIdx d).map toGo3 ∧
+    GIV.Go.XTxtar.isMarker d = (refIsMarkerIdx d).map optB ∧
+    GIV.Go.XTxtar.fixNL d = some (fixNL d) :=
+  have : FLit := ⟨rfl, rfl⟩; have : FNLM := ⟨rfl⟩
+  fun d => ⟨XTxtarGo.Parse_eq d, XTxtarGo.findFileMarker_eq d, XTxtarGo.isMarker_eq d, XTxtarGo.fixNL_eq d⟩
+
+example : GIV.Go.XTxtar.isMarker (lit "--  a  --\r\nrest") = some ([], []) := by decide +kernel
+example : GIV.Go.XTxtar.isMarker (lit "--  a  --\nrest") = some (lit "a", lit "rest") := by decide +kernel
+
+/-- Clause "agrees with the reference", both sides translated from source: on input without carriage
+returns /repo's `Parse` and x/tools' `Parse` both return, and return the same archive. -/
+theorem go_Parse_matches_reference : ∀ d, CR ∉ d →
+    ∃ a, GIV.Go.Txtar.Parse d = some (TxtarGo.toGoArchive a) ∧
+         GIV.Go.XTxtar.Parse d = some (XTxtarGo.toGoArchive a) := by
+  intro d h
+  refine ⟨refParse d, ?_, go_reference_agrees.1 d⟩
+  rw [go_Parse_agrees, parse_agrees_ref d h]
+  rfl
+
+/-- The same, read through the field-wise conversions to the model's `Archive`. -/
+theorem go_Parse_matches_reference_fields : ∀ d, CR ∉ d →
+    (GIV.Go.Txtar.Parse d).map TxtarGo.ofGoArchive = (GIV.Go.XTxtar.Parse d).map XTxtarGo.ofGoArchive := by
+  intro d h
+  obtain ⟨a, h1, h2⟩ := go_Parse_matches_reference d h
+  rw [h1, h2, Option.map_some, Option.map_some, TxtarGo.ofGo_toGo, XTxtarGo.ofGo_toGo]
+
+/-- with a CRLF marker line the two parsers differ (which is why the clause excludes carriage returns): -/
+example : GIV.Go.Txtar.Parse (lit "x\n-- a --\r\ny") = some ⟨lit "x\n", [⟨lit "a", lit "y\n"⟩]⟩ := by decide +kernel
+example : GIV.Go.XTxtar.Parse (lit "x\n-- a --\r\ny") = some ⟨lit "x\n-- a --\r\ny\n", []⟩ := by decide +kernel
+example : CR ∈ lit "x\n-- a --\r\ny" := by decide +kernel
+/-- … and without one they agree: -/
+example : (GIV.Go.Txtar.Parse (lit "x\n-- a --\ny\n-- b --")).map TxtarGo.ofGoArchive =
+    (GIV.Go.XTxtar.Parse (lit "x\n-- a --\ny\n-- b --")).map XTxtarGo.ofGoArchive := by decide +kernel
+
+/-- Clause "Format/Parse round trip", every function translated from source: for the archive `g` that
+/repo's `Parse` returns on any input, x/tools' `Format` succeeds on it (`xGo`: /repo's `Archive` is an
+alias of the library's) and /repo's `Parse` of the formatted bytes yields `g` again — the same comment,
+the same names, the same data. -/
+theorem go_Parse_Format_roundtrip : ∀ d g, GIV.Go.Txtar.Parse d = some g →
+    ∃ b, GIV.Go.XTxtar.Format (XTxtarGo.xGo g) = some b ∧ GIV.Go.Txtar.Parse b = some g :=
+  fun d g h => ⟨_, XTxtarGo.Format_xGo g, go_Parse_format_Parse d g h⟩
+
+example : (GIV.Go.Txtar.Parse (lit "c\r\n-- a b --\r\nx\n-- b --\r")).bind
+      (fun g => (GIV.Go.XTxtar.Format (XTxtarGo.xGo g)).bind GIV.Go.Txtar.Parse) =
+    some ⟨lit "c\r\n", [⟨lit "a b", lit "x\n"⟩, ⟨lit "b", []⟩]⟩ := by decide +kernel
+
+/-- `Parse (Format a) = a` for every well-formed archive, `Format` and `Parse` translated from source. -/
+theorem go_Format_Parse_wf : ∀ a, WellFormed a →
+    ∃ b, GIV.Go.XTxtar.Format (XTxtarGo.toGoArchive a) = some b ∧
+         GIV.Go.Txtar.Parse b = some (TxtarGo.toGoArchive a) :=
+  fun a h => ⟨_, go_reference_agrees.2.1 a, go_format_Parse_wf a h⟩
+
+example : (GIV.Go.XTxtar.Format ⟨lit "c\n", [⟨lit "a b", lit "x\n"⟩, ⟨lit "b", []⟩]⟩).bind GIV.Go.Txtar.Parse =
+    some ⟨lit "c\n", [⟨lit "a b", lit "x\n"⟩, ⟨lit "b", []⟩]⟩ := by decide +kernel
 
 end GIV.C03
